@@ -22,6 +22,7 @@ var blockKinds = []string{PlIf, PlElseIf, PlElse, PlFor, PlForRange}
 
 // Text is one generated case.
 type Text struct {
+	Deep  int  // number of extra nested if-blocks around the faulty construct (0 = none)
 	Split bool // the faulty expression is bracketed, the opening bracket on an earlier line
 	Src         string
 	L           int // 1-based line of the faulty construct within Src
@@ -123,6 +124,20 @@ func genText(r *rand.Rand, noFault bool) *Text {
 				g.healthy(1, true)
 			}
 			emit := func(depth int) { g.carrier(depth, t) }
+			if place != PlConc && !(place == PlNested2 && inner == PlConc) && r.Intn(25) == 0 {
+				// the construct sits DEEP inside nested blocks (the stack is deep when it fails)
+				t.Deep = 12 + r.Intn(9)
+				base := emit
+				emit = func(depth int) {
+					for n := 0; n < t.Deep; n++ {
+						g.add(depth+n, "if "+g.trueCond()+" {")
+					}
+					base(depth + t.Deep)
+					for n := t.Deep - 1; n >= 0; n-- {
+						g.add(depth+n, "}")
+					}
+				}
+			}
 			if place == PlNested2 {
 				g.wrap(outer, 1, func(d int) { g.wrap(inner, d, emit) })
 			} else {
